@@ -52,6 +52,14 @@ def plans(run, rt, quick):
         "set_index": df.set_index("b"),
         "groupby split_out": df.groupby("b").sum(split_out=2),
         "tree reduce": df.a.sum(split_every=2),
+        # staged task shuffles (more inputs than max_branch) to fewer / equal / more outputs than the stages produce
+        "staged shuffle 10->8 mb=6": rt.dx.from_pandas(pdf, npartitions=10).shuffle("b", npartitions=8, shuffle_method="tasks", max_branch=6),
+        "staged shuffle 10->12 mb=6": rt.dx.from_pandas(pdf, npartitions=10).shuffle("b", npartitions=12, shuffle_method="tasks", max_branch=6),
+        "staged shuffle 10->20 mb=6": rt.dx.from_pandas(pdf, npartitions=10).shuffle("b", npartitions=20, shuffle_method="tasks", max_branch=6),
+        "staged shuffle 5->7 mb=2": rt.dx.from_pandas(pdf, npartitions=5).shuffle("b", npartitions=7, shuffle_method="tasks", max_branch=2),
+        "staged shuffle 5->9 mb=2": rt.dx.from_pandas(pdf, npartitions=5).shuffle("b", npartitions=9, shuffle_method="tasks", max_branch=2),
+        "staged shuffle 5->7 mb=2 subset": rt.dx.from_pandas(pdf, npartitions=5).shuffle("b", npartitions=7, shuffle_method="tasks", max_branch=2).partitions[[1, 3, 4, 6]],
+        "disk shuffle max_branch": rt.dx.from_pandas(pdf, npartitions=5).shuffle("b", shuffle_method="disk", max_branch=3),
         "repartition divisions": df.repartition(divisions=[0, 3, 11]),
         "repartition more": df.clear_divisions().repartition(npartitions=7),
         "two repartitions of one frame": rt.dx.concat([df.repartition(divisions=[0, 5, 11]), df.repartition(divisions=[0, 2, 11])]),
@@ -79,6 +87,10 @@ def plans(run, rt, quick):
         "var and std": lambda: df.a.var() + df.a.std(),
         "two value_counts": lambda: rt.dx.concat([df.a.value_counts(), df.b.value_counts()]),
         "two partition selections": lambda: rt.dx.concat([df.partitions[[0, 1]], df.partitions[[1, 0]]]),
+        "two partition_size repartitions of one frame": lambda: (lambda big: rt.dx.concat([big.repartition(partition_size="1kiB"), big.repartition(partition_size="3kiB")]))(
+            rt.dx.from_pandas(pd.DataFrame({"a": range(400), "b": [float(i) for i in range(400)]}), npartitions=2)),
+        "two freq repartitions of one frame": lambda: (lambda ts: rt.dx.concat([ts.repartition(freq="2D"), ts.repartition(freq="3D")]))(
+            rt.dx.from_pandas(pd.DataFrame({"a": range(12)}, index=pd.date_range("2021-01-01", periods=12, freq="D")), npartitions=2)),
         "two merges of one pair": lambda: rt.dx.concat([df.merge(df, on="b", how="inner", shuffle_method="tasks"), df.merge(df, on="b", how="left", shuffle_method="tasks")]),
     }
     for tag, th in pair.items():
